@@ -27,6 +27,7 @@ func init() {
 			{ID: "C04-R2", Title: "compile functions meet their stack contract on all paths", Floor: 35, Run: c04r2},
 			{ID: "C04-R3", Title: "break/continue land at the loop's label heights (nesting graph)", Floor: 5, Run: c04r3},
 			{ID: "C04-R4", Title: "frame activation paired with deferred resumeFrame", Floor: 2, Run: c04r4},
+			{ID: "C04-R6", Title: "every run enters the dispatch loop with an empty operand stack", Floor: 1, Run: runStartsEmpty},
 			{ID: "C04-R5", Title: "run-state reset (sp) on entry only, guarded only by request and first-run", Floor: 2, Run: resetDiscipline},
 		},
 	})
